@@ -28,7 +28,7 @@ REAL_VS_STUB = {'real': ['kyupy.circuit.Circuit: copy, __getstate__/__setstate__
 ASSUMPTIONS = ['the set of cell names every library must offer is the pinned tree\'s (dsim/data/libcells.json, 1026 names); additional cells are fine', 'an instance input pin is left unconnected only where "reads 0" and "not connected" give the cell the same function (otherwise the function before resolving is ambiguous)',
                'the function of a sequential library instance is defined through its implementation: state = the state element inside, result = value at that element\'s data pin',
                'one library per case; resolve_tlib_cells is called with the library the instances were taken from']
-EXPECTED_PROBES = ['manual_buffer_inserted', 'implementation_reused_after_edit', 'nested_multi_output_impl', 'resolve_step', 'substitute_step', 'restore_step', 'elim_step', 'unconnected_input_pin', 'unconnected_output_pin', 'sequential_cell', 'multi_output_cell', 'cell_without_output', 'ignored_pin_cell']
+EXPECTED_PROBES = ['library_simulation_compared', 'manual_buffer_inserted', 'implementation_reused_after_edit', 'nested_multi_output_impl', 'resolve_step', 'substitute_step', 'restore_step', 'elim_step', 'unconnected_input_pin', 'unconnected_output_pin', 'sequential_cell', 'multi_output_cell', 'cell_without_output', 'ignored_pin_cell']
 
 LIBS = ['GSC180', 'NANGATE', 'NANGATE_ZN', 'SAED32', 'SAED90']
 HIDDEN_LATCH = ('DLH_X', 'DLL_X', 'TLAT_X1', 'TLATX1', 'TLATSRX1')
@@ -243,6 +243,46 @@ def table(c, tlibs, overrides):
     return names, {n.name: (0 if o is None else o) for n, o in zip(ev.snodes, obs)}
 
 
+def lib_prefix(kind):
+    """The primitive kyupy.sim picks for a kind (first matching prefix in its table), None if it has none."""
+    import kyupy.sim as ksim
+    k = kind.lower()
+    for prefix in ksim.kind_prefixes:
+        if k.startswith(prefix): return prefix
+    return None
+
+
+def simulated_table(c, tlib, res):
+    """The same table through the library's own LogicSim (2-valued), or None if the circuit is outside what both evaluators
+    read the same way: a kind the simulator has no primitive for (unresolved library cell), or one the two prefix tables split differently."""
+    import numpy as np
+    from .. import lsim
+    for n in c.nodes:
+        if n.kind in tlib.cells: return None      # (an unresolved library cell may share its name with a primitive and order its pins differently)
+        if n.kind == '__fork__' or refmodels.is_state(n) or n.kind.lower() in ('input', 'output') or any(n is x for x in c.io_nodes): continue
+        lp = lib_prefix(n.kind)
+        if lp is None or lp != refmodels.prim_of(n.kind): return None
+    snodes = refmodels.s_nodes_of(c)
+    cols, M = variable_patterns(len(snodes))
+    rows = M.bit_length()
+    mva = np.zeros((len(snodes), rows), dtype=np.uint8)
+    for i, col in enumerate(cols):
+        bits = np.frombuffer(col.to_bytes((rows + 7) // 8, 'little'), dtype=np.uint8)
+        mva[i] = np.unpackbits(bits, bitorder='little')[:rows] * 3
+    with contextlib.redirect_stdout(io.StringIO()):
+        sim = lsim.make(c, rows, 2, False, False)
+    lsim.assign(sim, mva)
+    lsim.run(sim)
+    out = lsim.result_mv(sim)
+    tab = {}
+    for i, n in enumerate(snodes):
+        if len(n.ins) == 0 or n.ins[0] is None: continue
+        b = np.packbits((out[i] & 1).astype(np.uint8), bitorder='little').tobytes()
+        tab[n.name] = int.from_bytes(b, 'little') & M
+    res.probe('library_simulation_compared')
+    return tab
+
+
 _missing = {}
 
 
@@ -388,6 +428,17 @@ def execute(case):
                 row = (diff & -diff).bit_length() - 1
                 res.violate('function-changed', f'step {k} ({did}): value at the data pin of "{name}" differs in table row {row} (before {(tab0[name] >> row) & 1}, after {(tab1[name] >> row) & 1}; variables {names0})')
                 return res
+        # the function as a user observes it: the library's own simulator on the transformed circuit (its traversal, its
+        # compile step, the circuit's indices and lookups as the transformation left them) against the reference table
+        if k == len(case['steps']) - 1 or kind == 'resolve':
+            tabs = simulated_table(c, tlib, res)
+            if tabs is not None:
+                for name, v in tabs.items():
+                    if v != tab1[name]:
+                        diff = v ^ tab1[name]
+                        row = (diff & -diff).bit_length() - 1
+                        res.violate('function-differs-in-library-simulation', f'step {k} ({did}): LogicSim on the transformed circuit gives {(v >> row) & 1} at the data pin of "{name}" in table row {row}, the graph evaluates to {(tab1[name] >> row) & 1} (variables {names1})')
+                        return res
     for name in used_cells:
         if graphsim.real_signature(tlib.cells[name][0]) != impl_before[name]:
             res.violate('library-implementation-mutated', f'the implementation circuit of library cell {name} was modified by the transformations (later instances of the cell are resolved from it)')
